@@ -21,10 +21,10 @@
 #            can be reused across runs.
 # Confidence: medium (genuine lost wake-up through purely public API, but needs an object
 #            surviving from one run to the next).
-import sys; sys.path.insert(0, '/tmp/hunt3')
+import sys; sys.path.insert(0, '/repo')
 import faulthandler; faulthandler.dump_traceback_later(25, exit=True)
 import usim
-assert usim.__file__.startswith('/tmp/hunt3'), usim.__file__
+assert usim.__file__.startswith('/repo'), usim.__file__
 from usim import run, time, Scope, Flag, until, eternity
 
 SHIFT_END = time >= 10
